@@ -561,6 +561,10 @@ impl Registrations {
 #[derive(Debug, Eq, PartialEq)]
 struct CookieNamespaceMismatch;
 
+#[cfg(libp2p_verif)]
+#[path = "verif_c51.rs"]
+pub mod verif_c51;
+
 #[cfg(test)]
 mod tests {
     use libp2p_core::PeerRecord;
